@@ -125,6 +125,34 @@ def funnel_dominance(chk, progs):
                 chk.violation("K1-funnel", "tar:next->sqfs_dir_entry_create", s,
                               "an archive member name reaches sqfs_dir_entry_create without a successful "
                               "canonicalize_name on the same string ('../x' or '/abs' members enter the tree)")
+    # (a') every other use of the member name in next(): matching it against patterns, comparing it, handing it to a helper.
+    # Two spellings of one name must be treated alike, so the raw name is looked at by nobody but the sanitiser.
+    for f in nexts:
+        cans = list(f.calls("canonicalize_name"))
+        if not cans:
+            continue
+        from ..corr import reachable_avoiding, outcome_edges
+        for u in f.calls():
+            nm = norm_callee(u.callee) if u.callee else None
+            if u in cans or nm in ("sqfs_dir_entry_create", "free", "sqfs_free") or (nm or "").startswith("llvm."):
+                continue
+            hits = [a for a in u.ops if any(same_location(prog, f, c.ops[0], a) for c in cans)]
+            if not hits:
+                continue
+            ok = any(same_location(prog, f, c.ops[0], hits[0]) and success_edge_dominates(f, c, u.bb) for c in cans)
+            if not ok:
+                acc = []
+                for c in cans:
+                    if same_location(prog, f, c.ops[0], hits[0]):
+                        acc += outcome_edges(f, c, nonzero=False)
+                ok = bool(acc) and reachable_avoiding(prog, f, u.bb, acc) is None
+            inst = "tar:next->%s" % (nm or "indirect")
+            if ok:
+                chk.ok("K1-funnel", inst, u, "the member name is handed to %s only after canonicalize_name accepted it" % (nm or "the call"))
+            else:
+                chk.violation("K1-funnel", inst, u, "the raw archive member name is handed to %s before canonicalize_name has seen it: "
+                              "'./x', '/x' and 'x' are one entry to the packer but three different strings to this call "
+                              "(an exclude pattern matches one spelling and not the others)" % (nm or "a call"))
     # (b) pack-file line handler: the path token handed to entries / callbacks
     prog = progs["gensquashfs"]
     unit = prog.by_src.get("bin/gensquashfs/src/fstree_from_file.c")
@@ -329,12 +357,22 @@ def run(chk):
         "with '/', '.', NUL or copied within the same buffer, so the functions' behaviour on all strings is "
         "determined by their behaviour over the three-letter alphabet {'/','.',other}. The input/output relation "
         "itself (exactly-when '..', idempotence, never grows) is value-level and not decided.")
-    chk.assumptions = ["the unpack-side funnel (rdsquashfs) is decided by the C06 check",
+    chk.assumptions = [
                        "value-level relation of canonicalize_name (rejects exactly '..' components, idempotent) is not decided"]
     progs = {t: load_program(t) for t in ("gensquashfs", "tar2sqfs", "rdsquashfs", "sqfs2tar", "sqfsdiff")}
     n = funnel_results(chk, progs)
     funnel_dominance(chk, progs)
     data_independence(chk, progs["rdsquashfs"])
+    # the unpack side: every tree walk that reaches the file system gates its own node's name, image-derived paths come
+    # from get_path + canonicalize_name only (the rules of C06, run here for the funnel property itself)
+    from .c06 import PathSinks, name_gate_rule, sanitiser_rule
+    from .. import taint
+    taint.CONTENT[0] = True
+    sinks = PathSinks(progs["rdsquashfs"])
+    name_gate_rule(chk, progs["rdsquashfs"], sinks, sinks.reaches_M())
+    sanitiser_rule(chk, progs["rdsquashfs"], sinks)
+    chk.floor("K1-gate", 7)
+    chk.floor("K1-sanitise", 5)
     chk.floor("K5-funnel", 22)
     chk.floor("K1-funnel", 4)
     chk.floor("DI-byte", 15)
